@@ -21,7 +21,7 @@ META = {
         'manual quoting anywhere in the module).  (D2) for every kind and version, the regular template of the encoded '
         'string is included in the specification language of that kind: type prefix of its kind, payload in that '
         'kind\'s lexical form (non-finite numbers n:INF/-INF/NaN); non-string kinds map to JSON null/true/false/array/'
-        'object.  (D3) keys written by the dumper itself (ver, name) are reported.  Not decided: independent-reader '
+        'object.  (D3) keys written by the dumper itself (ver, name) are reported.  Also: dates/times formatted with strftime are modelled with %Y as 1-4 digits (unpadded); the list of grids is never filtered by truthiness; SortableDict.items() conformance (shared with C16.D5).  Not decided: independent-reader '
         'execution; six-decimal closeness.'),
     'rule_text': 'obligations = shape facts + kinds x versions (inclusion in the spec language)',
     'trusted_base': ['json.dumps emits valid JSON for dict/list/str/bool/None'],
